@@ -262,7 +262,16 @@ func drawDialectModel(t *rapid.T, idx int) XDialect {
 					continue
 				}
 				name := e.Name + "_" + drawWordName(t, true, "entry")
-				if rapid.IntRange(0, 5).Draw(t, "entry_name_with_small_letters") == 0 {
+				if !e.Bitmask && rapid.IntRange(0, 5).Draw(t, "entry_named_by_a_number") == 0 {
+					// FRAME_RATE_15 = 1: the number in the name is not the value; the value 15 itself stays unnamed
+					// (unless another entry has it) and is probed
+					num := rapid.IntRange(2, 60).Draw(t, "number_in_the_name")
+					name = fmt.Sprintf("%s_%d", e.Name, num)
+					if d.ExtraProbe == nil {
+						d.ExtraProbe = map[string][]uint64{}
+					}
+					d.ExtraProbe[e.Name] = append(d.ExtraProbe[e.Name], uint64(num))
+				} else if rapid.IntRange(0, 5).Draw(t, "entry_name_with_small_letters") == 0 {
 					// entry names are taken as they are written (real definitions have ..._1080p, ..._mV)
 					name += rapid.SampledFrom([]string{"_1080p", "_v2", "_mV", "x", "_Hz"}).Draw(t, "small_suffix")
 				}
